@@ -177,7 +177,8 @@ class Builder:
     @contextmanager
     def in_block_context(self, context, name):
         """Mark us as being in a certain kind of block context."""
-        context_name = f"__in_context_{name}__"
+        # (not a legal Jaqal identifier: a program cannot refer to it)
+        context_name = f"<in_context_{name}>"
         old_value = context.get(context_name)
         context[context_name] = True
         try:
@@ -192,7 +193,7 @@ class Builder:
         """Return if we are in any block context given in names."""
         if isinstance(names, str):
             names = [names]
-        names = [f"__in_context_{name}__" for name in names]
+        names = [f"<in_context_{name}>" for name in names]
         return any(context.get(name, False) for name in names)
 
     def build_register(self, sexpression, context, gate_context):
